@@ -900,7 +900,7 @@ func Gen(r *vh.Rng, tier string, emit func(op, impl, class string, nontrivial bo
 	}
 	// tuples stored by reflection into structs whose fields cannot be set (time.Time, big.Int, inf.Dec: unexported
 	// fields; setTupleElem must answer with an error, reflect.Value.Set would panic)
-	for _, sh := range [][2]string{{"tuple(int,int,int)", "time"}, {"tuple(text,int,blob)", "time"}, {"tuple(int,int)", "bigint"},
+	for _, sh := range [][2]string{{"tuple(int,int,int)", "time"}, {"tuple(text,int,blob)", "time"}, {"tuple(int,int)", "bigint"}, {"tuple(boolean,int)", "bigint"}, {"tuple(boolean,blob)", "ptr(bigint)"},
 		{"tuple(int,text)", "dec"}, {"tuple(int,int,int)", "ptr(time)"}, {"list(tuple(int,int))", "slice(bigint)"}} {
 		for _, data := range [][]byte{{}, {0, 0, 0, 4, 0, 0, 0, 1}, {0xff, 0xff, 0xff, 0xff}, {0, 0, 0, 4, 0, 0, 0, 1, 0, 0, 0, 4, 0, 0, 0, 2, 0, 0, 0, 4, 0, 0, 0, 3}} {
 			d := data
